@@ -249,6 +249,16 @@ func runC05(c *core.Ctx) {
 			}
 			w.Write(p, k.content())
 		}
+		if w.Hist%10 == 3 {
+			// one directory with well over 100 entries (its tree object is larger than 4 KiB),
+			// entry names of varying length so that buffer edges fall at different places
+			n := 110 + w.Rng.IntN(60)
+			for i := 0; i < n; i++ {
+				name := fmt.Sprintf("big/f%03d%s", i, strings.Repeat("x", (i*7+w.Hist)%23))
+				w.Write(name, []byte(fmt.Sprintf("%d\n", i%5)))
+			}
+			k.goit("add", "big")
+		}
 		k.Do("commit-all")
 		steps := c.Pick(22, 28)
 		for i := 0; i < steps; i++ {
